@@ -66,6 +66,8 @@ INTERRUPT_PROGRAMS = [
      "body": 'let r = tail_poke()\nprintln(string_repr(r))\nprintln(string_repr(twice()))\n40 + 2\n', "resumes": 5},
     {"what": "only the final step is interrupted", "defs": _POKE,
      "body": 'println("x")\npoke()\n', "resumes": 2},
+    {"what": "a buffer evaluated with its file path, interrupted between two toplevel expressions that call a function of that file", "with_path": True,
+     "body": 'import "__shell.gdn" as shell\nfun step(n: Int) { println(string_repr(n)) }\nstep(1)\nshell::run("sh", ["-c", "kill -SIG $PPID; sleep 0.3"])\nstep(2)\nstep(3)\n', "resumes": 3}
 ]
 SANDBOX_PROGRAMS = [
     'println(string_repr("abc".split("")))\n', 'println("ab".replace("", "-"))\n', 'while True {}\n',
@@ -95,6 +97,12 @@ WITNESSES = [
     {"match": r"evalloop\.eval_with_tick_limit\.", "kind": "playground", "props": ["C25"], "input": prog, "timeout": 20,
      "expect": {"py": "'' if ('limit' in out or 'error' in out) else 'no limit error reported: ' + out[-200:]"}}
     for prog in SANDBOX_PROGRAMS
+]
+
+BOUNDED = [
+    {"name": "interrupt_sessions", "kind": "interrupt-session", "props": ["C08"], "input": INTERRUPT_PROGRAMS, "n_inputs": len(INTERRUPT_PROGRAMS), "timeout": 120,
+     "bound": "%d listed programs that interrupt their own interpreter at a known step (mid-program, inside loops and nested calls, at a frame return, on the last step, and in a buffer evaluated with its file path) and are resumed: printed output and result must equal those of the uninterrupted session" % len(INTERRUPT_PROGRAMS),
+     "expect": {}},
 ]
 
 GLUE = """
